@@ -145,6 +145,9 @@ func (w *baWorld) exec(line string) string {
 			case "i":
 				mc := int(u(f[1]))
 				inf := baInfo{mcount: mc, lers: w.lers, lcount: w.lcount, mer: refRoot(w.l1deps[:mc]), rer: refRoot(w.lers[:]), block: bn}
+				if len(f) > 2 && f[2] == "z" {
+					inf.mer = common.Hash{}
+				}
 				w.infos = append(w.infos, inf)
 				ib.Events = append(ib.Events, l1infotreesync.Event{UpdateL1InfoTree: &l1infotreesync.UpdateL1InfoTree{
 					BlockPosition: uint64(i), MainnetExitRoot: inf.mer, RollupExitRoot: inf.rer,
@@ -278,11 +281,15 @@ func baGen(r *Run, rng *Rng) {
 		l1n, l2n := 0, 0 // deposits so far
 		lastMc, lastLc := 0, 0
 		rerV, lastKey := 0, [2]int{-1, -1} // the contract records an info leaf only when the global exit root changed
+		zeroMER := rng.Chance(60) || wi%4 == 0
 		info := func(mc int) string {
 			if lastKey == [2]int{mc, rerV} {
 				return ""
 			}
 			lastKey = [2]int{mc, rerV}
+			if mc == 0 && zeroMER {
+				return "i:0:z" // the GER contract's mainnet exit root is still bytes32(0): no mainnet deposit has updated it
+			}
 			return fmt.Sprintf("i:%d", mc)
 		}
 		add := func(toks []string, t string) []string {
@@ -291,7 +298,7 @@ func baGen(r *Run, rng *Rng) {
 			}
 			return append(toks, t)
 		}
-		startEmpty := rng.Chance(30) // worlds whose first info leaves predate any deposit
+		startEmpty := rng.Chance(30) || wi%4 == 0 // worlds whose first info leaves predate any deposit
 		var seeds1, seeds2 []uint64  // a user repeating a bridge produces the same leaf again
 		bseed := func(pool *[]uint64) uint64 {
 			if len(*pool) > 0 && rng.Chance(30) {
@@ -300,6 +307,21 @@ func baGen(r *Run, rng *Rng) {
 			x := rng.U64() % 1000000
 			*pool = append(*pool, x)
 			return x
+		}
+		if wi == 0 {
+			// directed prelude: the info tree is updated (a rollup is verified) before the first mainnet deposit, so leaf 0
+			// carries the all-zero mainnet exit root; deposit 0 and the first covering leaf follow in the next block
+			l1 += 5
+			do(fmt.Sprintf("l1blk %d v:1:%d %s", l1, rng.U64()%1000000, "i:0:z"))
+			rerV++
+			lastKey = [2]int{0, rerV}
+			l1++
+			do(fmt.Sprintf("l1blk %d b:%d i:1", l1, bseed(&seeds1)))
+			l1n, lastMc = 1, 1
+			lastKey = [2]int{1, rerV}
+			do("q idx 0 0")
+			do("q idx 0 1")
+			r.Count("branch:prelude-zero-mainnet-exit-root")
 		}
 		for st := 0; st < steps; st++ {
 			if rng.Chance(35) {
